@@ -1,11 +1,8 @@
 package main
 
 import (
-	"fmt"
 	"go/ast"
-	"go/token"
 	"go/types"
-	"strings"
 )
 
 func init() {
@@ -38,258 +35,8 @@ func checkC15(c *Ctx, r *Report) {
 }
 
 func ruleMappingRule(c *Ctx, r *Report, rule string) {
-	r.rule(rule, 6, "field mapping: the tag table (raw `bcl` tag value -> field index) is consulted first with the raw key; only on a miss is the key cut at its first '.' and matched with FieldByNameFunc(unsnakeMatcher); unsnakeMatcher removes underscores and compares with EqualFold; a named struct type must match the block type the same way; Name is set before the fields")
-	_, cb := c.find("copyBlock")
-	if cb == nil {
-		r.bad(rule, "copyBlock", "function not found", "")
-		return
-	}
-	var setField *ast.FuncLit
-	ast.Inspect(cb.Body, func(n ast.Node) bool {
-		if as, ok := n.(*ast.AssignStmt); ok && len(as.Rhs) == 1 {
-			if lit, ok := as.Rhs[0].(*ast.FuncLit); ok && setField == nil {
-				setField = lit
-			}
-		}
-		return true
-	})
-	if setField == nil {
-		r.bad(rule, "setField", "the field-setting closure was not found in copyBlock", c.pos(cb.Pos()))
-		return
-	}
-	nameParam := c.infoFor(setField).Defs[setField.Type.Params.List[0].Names[0]]
-	// tag table construction: <map>[f.Tag.Get("bcl")] = i, in copyBlock or in a helper whose result is the table
-	okTable := false
-	tableFuncs := []*ast.FuncDecl{cb}
-	ast.Inspect(cb.Body, func(n ast.Node) bool {
-		as, ok := n.(*ast.AssignStmt)
-		if !ok || len(as.Lhs) != 1 || len(as.Rhs) != 1 {
-			return true
-		}
-		if id, ok := as.Lhs[0].(*ast.Ident); ok && id.Name == "tagged" {
-			if call, ok := as.Rhs[0].(*ast.CallExpr); ok {
-				if fn, ok := c.callee(call).(*types.Func); ok {
-					if hd := c.funcDecls[fn]; hd != nil {
-						tableFuncs = append(tableFuncs, hd)
-					}
-				}
-			}
-		}
-		return true
-	})
-	badStore := ""
-	for _, tf := range tableFuncs {
-		ast.Inspect(tf.Body, func(n ast.Node) bool {
-			if _, isLit := n.(*ast.FuncLit); isLit {
-				return false
-			}
-			as, ok := n.(*ast.AssignStmt)
-			if !ok || len(as.Lhs) != 1 {
-				return true
-			}
-			ix, ok := as.Lhs[0].(*ast.IndexExpr)
-			if !ok {
-				return true
-			}
-			mt, isMap := c.typeOf(ix.X).Underlying().(*types.Map)
-			if !isMap || types.TypeString(mt.Key(), nil) != "string" || !isInt(mt.Elem()) {
-				return true
-			}
-			// the key must be the direct result of Tag.Get("bcl")
-			key := ix.Index
-			if kid, ok := key.(*ast.Ident); ok {
-				if def, n := c.singleDef(tf.Body, c.objOf(kid)); n == 1 {
-					key = def
-				}
-			}
-			goodKey := false
-			if call, ok := key.(*ast.CallExpr); ok && c.calleeName(call) == "reflect.StructTag.Get" {
-				if s, isS := c.strConst(call.Args[0]); isS && s == "bcl" {
-					goodKey = true
-				}
-			}
-			// the stored index is the induction variable of `for i := 0; i < t.NumField(); i++` (the index space of t.Field)
-			goodIdx := false
-			if vid, ok := as.Rhs[0].(*ast.Ident); ok {
-				pm := parentMap(tf.Body)
-				for p := pm[as]; p != nil; p = pm[p] {
-					fs, isFor := p.(*ast.ForStmt)
-					if !isFor {
-						if _, isRange := p.(*ast.RangeStmt); isRange {
-							break
-						}
-						continue
-					}
-					if cond, ok := stripParens(fs.Cond).(*ast.BinaryExpr); ok && cond.Op == token.LSS && c.isObj(cond.X, c.objOf(vid)) {
-						if call, ok := stripParens(cond.Y).(*ast.CallExpr); ok && c.calleeName(call) == "reflect.Type.NumField" {
-							goodIdx = true
-						}
-					}
-					break
-				}
-			}
-			if goodKey && goodIdx {
-				okTable = true
-			} else {
-				badStore = c.pos(as.Pos())
-			}
-			return true
-		})
-	}
-	if badStore != "" {
-		okTable = false
-	}
-	r.check(okTable, rule, "tag-table", `table[f.Tag.Get("bcl")] = i for i < t.NumField(), nothing else`, "every entry of the tag table must be keyed by the raw value of a `bcl` tag and hold the field's index in t.Field's index space (for i := 0; i < t.NumField(); i++); offending store at "+badStore, c.pos(cb.Pos()))
-	// order inside setField
-	tagAt, nameAt := -1, -1
-	rawKey, underNotOK, cutFirst := false, false, false
-	for i, s := range setField.Body.List {
-		ast.Inspect(s, func(n ast.Node) bool {
-			switch n := n.(type) {
-			case *ast.IndexExpr:
-				if id, ok := n.X.(*ast.Ident); ok && id.Name == "tagged" {
-					if tagAt < 0 {
-						tagAt = i
-					}
-					rawKey = c.isObj(n.Index, nameParam)
-				}
-			case *ast.CallExpr:
-				switch c.calleeName(n) {
-				case "reflect.Type.FieldByNameFunc":
-					if nameAt < 0 {
-						nameAt = i
-					}
-					if ifs, ok := s.(*ast.IfStmt); ok {
-						if ue, ok := stripParens(ifs.Cond).(*ast.UnaryExpr); ok && ue.Op == token.NOT {
-							if id, ok := stripParens(ue.X).(*ast.Ident); ok && id.Name == "ok" {
-								underNotOK = true
-							}
-						}
-					}
-				case "strings.Cut":
-					if sep, isS := c.strConst(n.Args[1]); isS && sep == "." && c.isObj(n.Args[0], nameParam) {
-						cutFirst = true
-					}
-				case "strings.LastIndex", "strings.LastIndexByte", "strings.Split", "strings.SplitN", "strings.Index", "strings.IndexByte", "strings.TrimSuffix", "strings.TrimPrefix", "strings.ToLower", "strings.ReplaceAll":
-					cutFirst = false
-					rawKey = false
-				}
-			}
-			return true
-		})
-	}
-	r.check(tagAt >= 0 && nameAt > tagAt && rawKey, rule, "tag-first", "tagged[name] with the raw key, before name matching", "the tag table must be consulted first, with the unmodified block key", c.pos(setField.Pos()))
-	r.check(underNotOK && cutFirst, rule, "name-fallback", "only on a tag miss: cut the key at its first '.', FieldByNameFunc(unsnakeMatcher(...))", "name matching must run only when the tag lookup missed, on the key cut at its first '.' (strings.Cut)", c.pos(setField.Pos()))
-	// unsnakeMatcher (and the helpers it calls): one underscore removal on the key, EqualFold, nothing else on strings
-	if _, um := c.find("unsnakeMatcher"); um != nil {
-		okRep, okFold, other := 0, 0, ""
-		var visit func(fd *ast.FuncDecl, depth int)
-		seenFd := map[*ast.FuncDecl]bool{}
-		visit = func(fd *ast.FuncDecl, depth int) {
-			if fd == nil || seenFd[fd] || depth > 3 {
-				return
-			}
-			seenFd[fd] = true
-			for _, cs := range c.callsOf(fd) {
-				switch {
-				case cs.Name == "strings.ReplaceAll" && len(cs.Call.Args) == 3:
-					a, ok1 := c.strConst(cs.Call.Args[1])
-					b, ok2 := c.strConst(cs.Call.Args[2])
-					if ok1 && ok2 && a == "_" && b == "" {
-						okRep++
-					} else {
-						other = cs.Name
-					}
-				case cs.Name == "strings.Replace" && len(cs.Call.Args) == 4:
-					a, ok1 := c.strConst(cs.Call.Args[1])
-					b, ok2 := c.strConst(cs.Call.Args[2])
-					n, ok3 := c.intConst(cs.Call.Args[3])
-					if ok1 && ok2 && ok3 && a == "_" && b == "" && n < 0 {
-						okRep++
-					} else {
-						other = cs.Name
-					}
-				case cs.Name == "strings.EqualFold":
-					okFold++
-				case strings.HasPrefix(cs.Name, "strings.") || strings.HasPrefix(cs.Name, "unicode."):
-					other = cs.Name
-				default:
-					if fn, ok := c.callee(cs.Call).(*types.Func); ok && fn.Pkg() != nil && fn.Pkg().Path() == bclPath {
-						visit(c.funcDecls[fn], depth+1)
-					}
-				}
-			}
-		}
-		visit(um, 0)
-		r.check(okRep == 1 && okFold == 1 && other == "", rule, "unsnakeMatcher", `EqualFold(field, key with "_" removed)`, fmt.Sprintf("unsnakeMatcher must remove underscores from the key once and compare with strings.EqualFold, nothing else (removals %d, EqualFold %d, other string call %q)", okRep, okFold, other), c.pos(um.Pos()))
-	} else {
-		r.bad(rule, "unsnakeMatcher", "function not found", "")
-	}
-	if _, ue := c.find("unsnakeEq"); ue != nil {
-		sp := c.underscoreStrippedParams(ue, 0)
-		r.check(len(sp) == 1 && sp[1], rule, "unsnakeEq", "underscores removed from the second argument only", fmt.Sprintf("unsnakeEq(orig, snake) must remove underscores from its second argument (the BCL spelling) and compare it with the first (the Go name); parameters whose underscores are removed: %v", sp), c.pos(ue.Pos()))
-	}
-	// type name check: st != "" && !unsnakeEq(st, bt)  (any equivalent spelling) -> error
-	okType := false
-	ast.Inspect(cb.Body, func(n ast.Node) bool {
-		if _, isLit := n.(*ast.FuncLit); isLit {
-			return false
-		}
-		ifs, ok := n.(*ast.IfStmt)
-		if !ok {
-			return true
-		}
-		init, _ := ifs.Init.(*ast.AssignStmt)
-		atoms, pure := c.nnf(ifs.Cond, true, init).conjuncts()
-		if !pure || len(atoms) != 2 {
-			return true
-		}
-		nonEmpty, mismatch := false, false
-		for _, a := range atoms {
-			if _, isEmpty, ok := c.emptyStringCmp(a); ok && !isEmpty {
-				nonEmpty = true
-			}
-			if call, ok := a.E.(*ast.CallExpr); ok && !a.Pos && c.calleeName(call) == "unsnakeEq" && len(call.Args) == 2 {
-				// unsnakeEq(Go type name, block type): the first is t.Name(), the second block.Type
-				a0, a1 := c.resolveInit(a, call.Args[0]), c.resolveInit(a, call.Args[1])
-				if n0, ok := stripParens(a0).(*ast.CallExpr); ok && c.calleeName(n0) == "reflect.Type.Name" && c.fieldPath(a1) == "<Block>.Type" {
-					mismatch = true
-				}
-			}
-		}
-		returnsErr := false
-		for _, s := range ifs.Body.List {
-			if rs, ok := s.(*ast.ReturnStmt); ok && len(rs.Results) == 1 && !isNilIdent(rs.Results[0]) {
-				returnsErr = true
-			}
-		}
-		if nonEmpty && mismatch && returnsErr {
-			okType = true
-		}
-		return true
-	})
-	r.check(okType, rule, "type-name", `struct type name != "" && !unsnakeEq(type name, block type) -> error`, "a named struct type must be checked with unsnakeEq(Go type name, block type) — in this order — and unnamed struct types skipped", c.pos(cb.Pos()))
-	// Name first
-	firstCall := ""
-	for _, s := range cb.Body.List {
-		// err := setField(...)   or   if err := setField(...); err != nil {
-		if ifs, ok := s.(*ast.IfStmt); ok && ifs.Init != nil {
-			s = ifs.Init
-		}
-		if as, ok := s.(*ast.AssignStmt); ok && len(as.Rhs) == 1 {
-			if call, ok := as.Rhs[0].(*ast.CallExpr); ok {
-				if c.isFieldSetterCall(call) && firstCall == "" {
-					if s0, isS := c.strConst(call.Args[0]); isS {
-						firstCall = s0
-					}
-					if firstCall == "Name" && !strings.HasSuffix(c.fieldPath(call.Args[1]), ".Name") {
-						firstCall = "?"
-					}
-				}
-			}
-		}
-	}
-	r.check(firstCall == "Name", rule, "name-field", `setField("Name", block.Name) before the fields`, "the block name must be stored through setField(\"Name\", block.Name) before the fields", c.pos(cb.Pos()))
+	r.rule(rule, 6, "field mapping, on the interpreted paths of copyBlock: the tag table (raw `bcl` tag value -> field, over all fields) is consulted first with the raw key; only on a miss is the key cut at its first '.' and matched against the field names with underscores removed and strings.EqualFold; a named struct type must match the block type the same way; the block name goes through the setter as (\"Name\", block.Name) before the fields")
+	ruleSetterMapping(c, r, rule)
 }
 
 func checkC05(c *Ctx, r *Report) {
